@@ -16,12 +16,26 @@ fn any_image_point() -> (f64, f64) {
   (xa, y)
 }
 
-/// every image point: total, in range, offsets in [0, 1], inside the cell of the returned number
-fn k_c11_point(nside: u32) {
+/// Role of the open finding F4 (known_findings.json): polar-cap points on / within 2^-40 of a base-cell seam, and the corners at the
+/// base of the caps (|y| within 2^-40 of 1, x within 2^-40 of an even integer).
+fn f4_role(x: f64, y: f64) -> bool {
+  let eps = 9.094947017729282e-13;   // 2^-40
+  let ay = if y < 0.0 { -y } else { y };
+  if ay <= 1.0 - eps { return false; }
+  let mut q = (x / 2.0) as u64 as f64;
+  if q > 3.0 { q = 3.0; }
+  let u = x - (2.0 * q + 1.0);
+  let au = if u < 0.0 { -u } else { u };
+  au >= (2.0 - ay) - 2.0 * eps
+}
+
+/// every image point (role: 0 = outside the role of finding F4, 1 = inside it): total, in range, offsets in [0, 1], inside the cell of the returned number
+fn k_c11_point(nside: u32, role: u8) {
   let (x, y) = any_image_point();
-  kani::cover!(y > 1.0 && x == 2.0, "polar cap, on the seam lon = pi/2");
-  kani::cover!(y == 2.0, "north pole");
-  kani::cover!(y < -1.0 && x > 7.9, "south cap next to lon = 2 pi");
+  kani::assume(f4_role(x, y) == (role == 1));
+  kani::cover!(y > 1.5 && x > 2.0 && x < 2.5, "north polar cap");
+  kani::cover!(y == 1.0 && x == 1.0, "transition latitude");
+  kani::cover!(y < -1.0 && x > 7.0, "south cap, last base cell");
   let (h, dx, dy) = hp::ring::hash_with_dxdy(nside, 0.0, 0.0);
   assert!(h < c11_n_hash(nside), "C11: ring hash out of range");
   assert!(dx >= 0.0 && dx <= 1.0 && dy >= 0.0 && dy <= 1.0, "C11: offsets out of [0, 1]");
@@ -47,8 +61,8 @@ fn k_c11_center(nside: u32) {
 
 fn k_c11_order(nside: u32) {
   let r: u64 = kani::any();
-  kani::assume(r + 1 < c11_n_hash(nside));
-  kani::cover!(r + 2 == c11_n_hash(nside), "last pair");
+  kani::assume(r < c11_n_hash(nside) - 1);
+  kani::cover!(r == c11_n_hash(nside) - 2, "last pair");
   p_c11_order(nside, r);
 }
 
